@@ -474,9 +474,66 @@ impl Read for SimBufRead {
     }
 }
 
+/// A FASTA file that exists only as a formula: one record of up to 2^40 bases whose base at
+/// position i is a function of i, laid out with a fixed line width. Lets the seekable endpoint
+/// serve file offsets beyond 4 GiB without storing anything.
+pub struct Virtual {
+    pub header: Vec<u8>,
+    pub line_bases: u64,
+    pub term: &'static [u8],
+    pub seq_len: u64,
+    pub a: u64,
+    pub b: u64,
+    /// bytes of the file that exist (≤ total_len(): a truncated copy)
+    pub visible_len: u64,
+}
+
+pub const VBASES: &[u8] = b"ACGTNRYKMSWBDHVacgtn";
+
+impl Virtual {
+    pub fn base(&self, i: u64) -> u8 {
+        let k = self
+            .a
+            .wrapping_add(i.wrapping_mul(self.b))
+            .wrapping_add(i / 7)
+            .wrapping_add(i / 61)
+            .wrapping_add(i / 4099)
+            .wrapping_add(i >> 31);
+        VBASES[(k % VBASES.len() as u64) as usize]
+    }
+    pub fn line_bytes(&self) -> u64 {
+        self.line_bases + self.term.len() as u64
+    }
+    pub fn total_len(&self) -> u64 {
+        let full = self.seq_len / self.line_bases;
+        let rem = self.seq_len % self.line_bases;
+        self.header.len() as u64 + full * self.line_bytes() + if rem > 0 { rem + self.term.len() as u64 } else { 0 }
+    }
+    fn byte_at(&self, o: u64) -> u8 {
+        let h = self.header.len() as u64;
+        if o < h {
+            return self.header[o as usize];
+        }
+        let rel = o - h;
+        let line = rel / self.line_bytes();
+        let col = rel % self.line_bytes();
+        let i = line * self.line_bases + col;
+        if col < self.line_bases && i < self.seq_len {
+            self.base(i)
+        } else if i >= self.seq_len && col < self.line_bases {
+            // terminator of the short last line
+            let t = (col - self.seq_len % self.line_bases) as usize;
+            self.term[t.min(self.term.len() - 1)]
+        } else {
+            self.term[(col - self.line_bases) as usize]
+        }
+    }
+}
+
 /// `Read + Seek` endpoint (a file).
 pub struct SimSeekRead {
     w: W,
+    virt: Option<Rc<Virtual>>,
     data: Rc<Vec<u8>>,
     pos: u64,
     pub cfg: Rc<Cell<IoCfg>>,
@@ -489,6 +546,7 @@ impl SimSeekRead {
     pub fn new(w: &W, data: Rc<Vec<u8>>, cfg: IoCfg, name: &'static str) -> Self {
         SimSeekRead {
             w: w.clone(),
+            virt: None,
             data,
             pos: 0,
             cfg: Rc::new(Cell::new(cfg)),
@@ -497,15 +555,26 @@ impl SimSeekRead {
             cuts: Rc::new(RefCell::new(Vec::new())),
         }
     }
+    pub fn new_virtual(w: &W, v: Rc<Virtual>, cfg: IoCfg, name: &'static str) -> Self {
+        let mut s = SimSeekRead::new(w, Rc::new(Vec::new()), cfg, name);
+        s.virt = Some(v);
+        s
+    }
+    fn len(&self) -> u64 {
+        match &self.virt {
+            Some(v) => v.visible_len,
+            None => self.data.len() as u64,
+        }
+    }
 }
 
 impl Read for SimSeekRead {
     fn read(&mut self, buf: &mut [u8]) -> io::Result<usize> {
-        let len = self.data.len() as u64;
+        let len = self.len();
         let rem = if self.pos >= len {
             0
         } else {
-            (len - self.pos) as usize
+            (len - self.pos).min(1 << 30) as usize
         };
         if buf.is_empty() || rem == 0 {
             self.w.event(self.name, "read", buf.len() as u64, 0, self.pos);
@@ -518,16 +587,25 @@ impl Read for SimSeekRead {
             return Err(e);
         }
         let possible = buf.len().min(rem);
-        let n = cfg.chunk.decide(&self.w, possible, self.pos as usize);
-        let p = self.pos as usize;
-        buf[..n].copy_from_slice(&self.data[p..p + n]);
+        let n = cfg.chunk.decide(&self.w, possible, (self.pos.min(1 << 40)) as usize);
+        match &self.virt {
+            Some(v) => {
+                for (k, slot) in buf[..n].iter_mut().enumerate() {
+                    *slot = v.byte_at(self.pos + k as u64);
+                }
+            }
+            None => {
+                let p = self.pos as usize;
+                buf[..n].copy_from_slice(&self.data[p..p + n]);
+            }
+        }
         if n < possible {
             self.w.fired("short_read");
         }
         self.w
             .event(self.name, "read", buf.len() as u64, n as i64, self.pos);
         self.pos += n as u64;
-        if (self.pos as usize) < self.data.len() {
+        if self.virt.is_none() && (self.pos as usize) < self.data.len() {
             self.cuts.borrow_mut().push(self.pos as usize);
         }
         Ok(n)
@@ -543,7 +621,7 @@ impl Seek for SimSeekRead {
             self.w.event(self.name, "seek", 0, -2, self.pos);
             return Err(eio());
         }
-        let len = self.data.len() as i128;
+        let len = self.len() as i128;
         let target: i128 = match from {
             SeekFrom::Start(p) => p as i128,
             SeekFrom::Current(d) => self.pos as i128 + d as i128,
